@@ -383,6 +383,15 @@ class Cases:
         self.req.append({"op": "xml.serialize", "ll": ll, "siblings": sib, "pns": pns,
                          "is_root": parent is None, "doc": doc})
         self.meta.append(("serialize:" + label.split(":")[0], {"label": label, "ll": ll, "doc": doc, "pns": pns, "siblings": sib}, iv))
+        shaped_py = parent is None and capella_shaped(doc)
+        if parent is None and sib:
+            # the statements of the round-trip theorems, evaluated by the model on this very tree; and the
+            # Lean predicate wfDoc against the harness' own reading of "Capella-shaped"
+            self.req.append({"op": "xml.roundtrip", "ll": ll, "doc": doc})
+            want = {"wf": shaped_py}
+            if shaped_py:
+                want.update({"lex": True, "build": True, "resolve": True, "parse": True, "canon_same_bytes": True})
+            self.meta.append(("roundtrip:" + label.split(":")[0], {"label": label, "ll": ll, "doc": doc}, want))
         # reader tie + monitor
         if b is None:
             return
@@ -683,6 +692,8 @@ def run(ctx: Ctx) -> Outcome:
         for (stream, case, iv), ans in zip(cs.meta, answers):
             mv = ans.get("ok", {"err": ans.get("err")})
             out.hit(stream)
+            if stream.startswith("roundtrip:") and isinstance(mv, dict) and mv.get("wf") is False and iv == {"wf": False}:
+                continue  # outside the theorems' domain: nothing is claimed
             if mv != json.loads(json.dumps(iv)):
                 c = dict(case)
                 if "doc" in c and len(json.dumps(c["doc"])) > 4000:
